@@ -168,7 +168,7 @@ pub fn gen_text_structured(r: &mut Rng, chars: &[u32], max_len: usize) -> Vec<u3
 /// text preprocessing (syllable reordering, tone-mark moves, decomposition, dotted-circle insertion,
 /// cluster merging) runs on .notdef glyphs just as well.
 pub const SCRIPT_ALPHABETS: [&[(u32, u32)]; 14] = [
-    &[(0xAC00, 0xAC40), (0x1100, 0x1112), (0x115F, 0x1175), (0x11A7, 0x11C3), (0x302E, 0x302F), (0x302E, 0x302F), (0xD7B0, 0xD7C6), (0xA960, 0xA97C), (0xC2E0, 0xC2FF)], // Hangul
+    &[(0xAC00, 0xAC40), (0x1100, 0x1112), (0x1161, 0x1175), (0x11A8, 0x11C2), (0x115F, 0x1160), (0x119E, 0x11A7), (0x11C3, 0x11C8), (0xA960, 0xA97C), (0xD7B0, 0xD7C6), (0x302E, 0x302F), (0x302E, 0x302F), (0x302E, 0x302F)], // Hangul
     &[(0x0905, 0x0939), (0x093A, 0x094F), (0x0951, 0x0957), (0x0900, 0x0903), (0x094D, 0x094D), (0x0930, 0x0930)], // Devanagari
     &[(0x0985, 0x09B9), (0x09BC, 0x09CD), (0x09D7, 0x09D7), (0x0981, 0x0983)],                                   // Bengali
     &[(0x0B85, 0x0BB9), (0x0BBE, 0x0BCD), (0x0BD7, 0x0BD7)],                                                     // Tamil
@@ -617,6 +617,25 @@ pub fn check_c15(fi: &FontInfo, req: &Req, r: &mut Rng, cnt: &mut Counters) {
 
 fn c15(r: &mut Rng, fonts: &[FontInfo], n: u64, tr: &mut Option<std::fs::File>) {
     let mut cnt = Counters::default();
+    // dedicated pass: every (font, script it maps) pair, texts over the script's alphabet incl. ill-formed
+    // sequences (the shapers' text preprocessing must not depend on the cluster level or numbering)
+    for fi in fonts.iter() {
+        for &k in &fi.scripts {
+            for j in 0..24u32 {
+                let mut req = gen_req(r, fi, 8);
+                let text = gen_text_alphabet(r, k, 8);
+                let cl = gen_clusters(r, text.len());
+                req.text = text.into_iter().zip(cl.into_iter()).collect();
+                req.features.retain(|f| !f.contains('['));
+                req.dir = if j % 2 == 0 { None } else { Some(DIRS[(j % 4) as usize]) };
+                req.pre.clear();
+                req.post.clear();
+                trace(tr, &format!("script {} {} [{}]", k, fi.path, fmt_req(&req)));
+                check_c15(fi, &req, r, &mut cnt);
+                cnt.bump("script_pass_cases");
+            }
+        }
+    }
     for i in 0..n {
         let fi = &fonts[r.below(fonts.len() as u64) as usize];
         let mut req = gen_req_s(r, fi, 16);
@@ -774,13 +793,34 @@ fn limit_font() -> FontInfo {
     FontInfo { path, data, chars, has_layout: true, has_morx: false, has_kern: false, scripts: vec![] }
 }
 
+/// A generated font whose default-on `rand` feature picks among three alternates of every glyph: the
+/// pseudo-random sequence must restart with every shaping call, whatever the buffer shaped before.
+fn rand_font() -> FontInfo {
+    use crate::fontgen::*;
+    let mut spec = FontSpec::basic(16);
+    let alternates: Vec<Vec<u16>> = (1..4u16).map(|g| vec![4 + 3 * (g - 1), 5 + 3 * (g - 1), 6 + 3 * (g - 1)]).collect();
+    spec.gsub = Some(Layout::single_feature(*b"rand", vec![Lookup::one(SubstSubtable::Alternate { coverage: Coverage::Glyphs(vec![1, 2, 3]), alternates })]));
+    let data = build(&spec);
+    let mut path = "generated:rand".to_string();
+    if let Ok(dir) = std::env::var("RBV_DUMP_DIR") {
+        let p = format!("{}/generated-rand.ttf", dir);
+        let _ = std::fs::create_dir_all(&dir);
+        if std::fs::write(&p, &data).is_ok() {
+            path = p;
+        }
+    }
+    let chars: Vec<u32> = spec.cmap.iter().take(3).map(|x| x.0).collect();
+    FontInfo { path, data, chars, has_layout: true, has_morx: false, has_kern: false, scripts: vec![] }
+}
+
 fn c05(r: &mut Rng, fonts: &[FontInfo], n: u64, tr: &mut Option<std::fs::File>) {
     let mut cnt = Counters::default();
     let alias = aliasing_font();
     let limit = limit_font();
+    let randf = rand_font();
     // (a) histories on one recycled buffer vs fresh buffers
     for i in 0..n {
-        let fi = if i % 4 == 3 { &alias } else if i % 8 == 1 { &limit } else { &fonts[r.below(fonts.len() as u64) as usize] };
+        let fi = if i % 4 == 3 { &alias } else if i % 8 == 1 { &limit } else if i % 8 == 5 { &randf } else { &fonts[r.below(fonts.len() as u64) as usize] };
         let Some(face) = Face::from_slice(&fi.data, 0) else { continue };
         let steps = r.range(2, 6);
         let mut reqs: Vec<Req> = Vec::new();
@@ -867,7 +907,7 @@ fn c05(r: &mut Rng, fonts: &[FontInfo], n: u64, tr: &mut Option<std::fs::File>) 
     // (b) threads sharing Face and ShapePlan
     let nthreads = 8;
     for round in 0..(n / 20).max(4) {
-        let fi = &fonts[r.below(fonts.len() as u64) as usize];
+        let fi = if round % 3 == 2 { &randf } else { &fonts[r.below(fonts.len() as u64) as usize] };
         let Some(face) = Face::from_slice(&fi.data, 0) else { continue };
         // texts sharing one plan: same direction/script/features
         let dir = *r.pick(&[Direction::LeftToRight, Direction::RightToLeft]);
@@ -1135,6 +1175,24 @@ fn c01gen(tr: &mut Option<std::fs::File>) {
                 run_case("cursive-reversed-chain-rtl", &f, Req { text: text_of(n, &[pua(0)]), flags: 3, dir: Some(Direction::RightToLeft), ..Default::default() }, &mut cnt, tr);
             }
         }
+    }
+    // 3c. a lookup deletes every glyph (multiple substitution with an empty sequence) and later lookups of every
+    //     kind (forward, reverse chaining, contextual) still run on the emptied buffer
+    {
+        let mut f = FontSpec::basic(5);
+        let del = SubstSubtable::Multiple { coverage: Coverage::Glyphs(vec![1]), sequences: vec![vec![]] };
+        let rev = SubstSubtable::ReverseChain { coverage: Coverage::Glyphs(vec![1, 2]), backtrack: vec![], lookahead: vec![], substitutes: vec![3, 3] };
+        let single = SubstSubtable::Single2 { coverage: Coverage::Glyphs(vec![1, 2]), substitutes: vec![4, 4] };
+        let ctx = SubstSubtable::Context3 { coverages: vec![Coverage::Glyphs(vec![1, 2])], lookups: vec![SeqLookup { sequence_index: 0, lookup_index: 2 }] };
+        f.gsub = Some(Layout::single_feature(*b"ccmp", vec![Lookup::one(del), Lookup::one(rev), Lookup::one(single), Lookup::one(ctx)]));
+        for cps in [vec![pua(0)], vec![pua(0), pua(0), pua(0), pua(0)], vec![pua(0), pua(1)], vec![pua(1), pua(0)]] {
+            let text: Vec<(u32, u32)> = cps.iter().enumerate().map(|(i, c)| (*c, i as u32)).collect();
+            run_case("delete-all-then-more-lookups", &f, Req { text: text.clone(), flags: 3, ..Default::default() }, &mut cnt, tr);
+            run_case("delete-all-then-more-lookups-rtl", &f, Req { text, flags: 3, dir: Some(Direction::RightToLeft), ..Default::default() }, &mut cnt, tr);
+        }
+        // the same with GPOS after an emptied buffer
+        f.gpos = Some(Layout::single_feature(*b"kern", vec![Lookup::one(PosSubtable::Single1 { coverage: Coverage::Glyphs(vec![1, 2]), value: ValueRecord::xadv(10), vf: ValueFormat::NonZero })]));
+        run_case("delete-all-then-gpos", &f, Req { text: text_of(3, &[pua(0)]), flags: 3, ..Default::default() }, &mut cnt, tr);
     }
     // 4a. nested ligatures: 15 x a -> L1, then 18 x L1 -> L2 (270 components: beyond every 8-bit counter);
     //     very wide advances (the serializer sums them)
